@@ -1,6 +1,17 @@
-"""Launcher used as args[0]: parent and children run the real entry point."""
+"""Launcher used as args[0]: parent and children run the real entry point.
+
+$ZTR_DEFAULTS (a JSON list) is passed as the script's default options, the way
+a generated bin/test script does; the parent hands them on to its children
+itself (--default ...), so only a process that is not a resumed child reads
+the variable."""
+import json
+import os
 import sys
 
 if __name__ == '__main__':
     from zope.testrunner import run
-    run()
+    d = os.environ.get('ZTR_DEFAULTS')
+    if d and '--resume-layer' not in sys.argv[1:2]:
+        run(defaults=json.loads(d))
+    else:
+        run()
